@@ -8,7 +8,9 @@
 // std::collections::BTreeMap (view = Map<K, V>; new / clone / is_empty / get_mut / iter with its ghost sequence).
 // vstd states them under `vstd::laws_cmp::obeys_cmp::<K>()` ("Ord on K is a lawful total order that agrees with ==");
 // for K = AbstractIdentifier that is a HYPOTHESIS of the unit (`dd_id_ok`), not an axiom of this file.
-// `Option::and_then`, `Option::map`, `Option::is_none`, `Result::ok` have vstd specifications: nothing is added for them.
+// `Option::{and_then, map, is_none, clone}`, `Result::ok`, `BTreeMap::{get, get_mut, insert, clone, is_empty, iter}` have vstd
+// specifications: nothing is added for them.  The third R9 substitution of the unit (filter_map(..).collect() in
+// intersect_relative_values) is a plain loop and has no target here.
 // ---------------------------------------------------------------------------
 
 use std::collections::BTreeMap;
